@@ -305,6 +305,29 @@ def h_badmap(ctx, cfg):
         ctx.fail("sample mapping with non-dense ids was accepted")
     except ValueError:
         ctx.prove(True, "sample mapping with non-dense ids is rejected")
+    # (3) each mapping is judged on its own: a bad one is rejected also when the other one is supplied and valid
+    for what, kw in (("non-dense sample mapping next to a valid treatment mapping", dict(treatment_mapping=(mn, md, mi), sample_mapping=(smn, sgap))),
+                     ("sample mapping lacking a data row next to a valid treatment mapping", dict(treatment_mapping=(mn, md, mi), sample_mapping=(smn[:-1], smi[:-1]))),
+                     ("treatment mapping lacking a data row next to a valid sample mapping", dict(treatment_mapping=(mn[:-1], md[:-1], mi[:-1]), sample_mapping=(smn, smi)))):
+        if "treatment mapping lacking" in what and len(mn.tolist()) < 1:
+            continue
+        try:
+            data.Screen(treatment_names=tn, treatment_doses=td, sample_names=np.array(sn), plate_names=pl, control_treatment_name=ctrl, **kw)
+            ctx.fail("%s was accepted" % what, key="bad mapping accepted next to a valid one")
+        except ValueError:
+            ctx.prove(True, "a bad mapping is rejected also when the other mapping is supplied and valid")
+    if has_nonctrl:
+        try:
+            data.Screen(treatment_names=tn, treatment_doses=td, sample_names=np.array(sn), plate_names=pl, control_treatment_name=ctrl,
+                        treatment_mapping=(mn, md, gap), sample_mapping=(smn, smi))
+            ctx.fail("non-dense treatment mapping next to a valid sample mapping was accepted", key="bad mapping accepted next to a valid one")
+        except ValueError:
+            ctx.prove(True, "a bad mapping is rejected also when the other mapping is supplied and valid")
+    # and two valid mappings together are accepted and followed
+    both = data.Screen(treatment_names=tn, treatment_doses=td, sample_names=np.array(sn), plate_names=pl, control_treatment_name=ctrl,
+                       treatment_mapping=(mn, md, mi), sample_mapping=(smn, smi))
+    ctx.prove(both.sample_ids.tolist() == base.sample_ids.tolist() and both.treatment_ids.tolist() == base.treatment_ids.tolist(),
+              "two valid supplied mappings are followed")
     return len(ids)
 
 
